@@ -145,6 +145,16 @@ class Engine(ExprMixin, StmtMixin, CallMixin, EngineBase):
                 st.assume(z3.Select(st.alloc, v.z))
         if a.vararg or a.kwarg:
             raise Unsupported(f"*args/**kwargs in the signature of {key}")
+        if self.S.scope is not None:
+            # finite-scope search: objects are well typed (reference fields hold instances of their declared class)
+            for cname, d in list(self.reg.classes.items()):
+                for fname, ft in list(d.fields.items()) + list(d.ghost.items()):
+                    if ft[0] != "ref":
+                        continue
+                    arr = self.heap_arr(st, cname, fname, ft)
+                    for r in self.S.ref_consts[1:]:
+                        owner = z3.Or(*[self.dtype_fn(r) == self.class_id(c) for c in sorted(set(self.subclasses_of(cname)) | {cname})])
+                        st.assume(z3.Implies(owner, self.is_instance_z(z3.Select(arr, r), ft[1])))
         st.old = st.fork()
         # requires
         for cl in con.requires + con.assume_on_entry:
